@@ -215,6 +215,8 @@ def _tuple_genexpr(m, node):
 
 
 def _tuple_builtin(m, args, kwargs):
+    if not args:
+        return ()
     a = args[0]
     if isinstance(a, tuple) and a and a[0] == "filtered-tuple":
         _, t0, x = a
@@ -356,6 +358,26 @@ key2keys = _mk(Contract(
                        ensures=[("S:the-tuple-that-owns-k", "result == KEYS_OF(self, key) and GROUP(self, MAP(self, key)) == result")],
                        raises={"KeyError": "not HAS(self, key)"})},
     replay="oracles.bounded_adapter:c15", stated=["key2keys(k) is the key tuple of the value that k maps to"]))
+
+
+value2keys = _mk(Contract(
+    name="MultiKeyDict.value2keys", qual="audiolazy/lazy_core.py::MultiKeyDict.value2keys", kind="function", props=["C15"],
+    modes={"any": Mode(params=dict(self=mkd_obj, value=lambda m, n: z3.Const("value", V)), requires=["wf(self)"],
+                       ensures=[("S:the-tuple-owned-by-the-value,empty-when-it-is-not-a-value", "VALUE2KEYS_OK(result)")])},
+    replay="oracles.bounded_adapter:c15", stated=["value2keys(v) is the key tuple owned by v, the empty tuple when v is not a value of the dict"]))
+
+
+@_spec
+def VALUE2KEYS_OK(m, node):
+    r = m.eval(node.args[0])
+    o, v = m.params0["self"], m.params0["value"]
+    IDd, IDv = _dv(m, o, "_inv_dict")
+    if isinstance(r, tuple):
+        return z3.And(z3.Not(IDd[v]), len(r) == 0)
+    return z3.And(IDd[v], r == IDv[v])
+
+
+_ENV.update(VALUE2KEYS_OK=VALUE2KEYS_OK)
 
 
 def _delitem_init(m):
